@@ -16,7 +16,9 @@ THEOREMS = ["tables_ok2", "decode_construct", "decode_construct_gen", "render_pr
             "std_param_rejected", "std_arity_rejected", "destination_rejected", "wrong_kind_rejected",
             "byte_param_rejected", "slice_write_rejects", "std_accepted_is_legal", "dapc_accepted_is_legal",
             "special_accepted_is_legal", "shortSpecial_accepted_is_legal", "initialise_accepted_is_legal",
-            "devStd_accepted_is_legal", "devInst_accepted_is_legal", "devSpecial_accepted_is_legal"]
+            "devStd_accepted_is_legal", "devInst_accepted_is_legal", "devSpecial_accepted_is_legal",
+            "event_keywords_spec", "event_keywords_error", "event_accepted_fields", "unknownEvent_accepted_fields",
+            "ambiguous_accepted_is_legal", "event_accepted_is_legal"]
 TRUSTED = ["hand-written models Model/Construct.lean (argument handling) and Model/Decode.lean (frame assembly), tied "
            "on every run over all concrete classes x all destinations x parameter values (exhaustive for 4-bit and "
            "8-bit parameters, sampled for two-byte specials and instance bytes) plus a malformed-argument stream"]
